@@ -103,7 +103,7 @@ L1SubGradient ==
                  /\ L1x2On(Mu(c), GroupOf(c)) - L1x2On(Bump(Mu(c), x, -1), GroupOf(c)) <= g
 \* smoothness: v'Hv <= L v'v on each clique block of the Hessian (it is block diagonal), integer directions
 \* (4^cells directions for small cliques; larger cliques get {-1, 1} so that the enumeration stays below a million per clique)
-DirVals(c) == IF CSize(c) <= 6 THEN {-1, 0, 1, 2} ELSE IF CSize(c) <= 8 THEN {-1, 0, 1} ELSE {-1, 1}
+DirVals(c) == IF CSize(c) <= 4 THEN {-1, 0, 1, 2} ELSE IF CSize(c) <= 6 THEN {-1, 0, 1} ELSE {-1, 1}
 Dirs(c) == [Asg(CliqueSet(c), I.sz) -> DirVals(c)]
 Zero(c) == [at |-> CliqueSet(c), v |-> [x \in Asg(CliqueSet(c), I.sz) |-> 0]]
 Curv4(c, d) == LET t == [at |-> CliqueSet(c), v |-> d]
